@@ -14,7 +14,7 @@ ALIPH = ["C", "C", "C", "C", "N", "O", "S", "P", "B", "[Si]", "[N+]", "[13CH2]",
 LEAVES = ["F", "Cl", "Br", "I", "[O-]", "O", "N", "C", "C", "[2H]"]
 FF_ALIPH = ["C", "C", "C", "C", "O", "N"]
 FF_LEAVES = ["F", "Cl", "C", "C", "O"]
-WSTYLES = ["plain", "plain", "float", "exp", "lead0", "nolead"]
+WSTYLES = ["plain", "plain", "float", "exp", "lead0", "nolead", "dotexp", "dotExp", "Eupper", "expsigned"]
 
 
 def _val(label):
@@ -402,7 +402,7 @@ def dists(draw, scale=None, families=None, small=True):
     s = scale or 30.0
     nu = draw(st.integers(1, 4 if small else 12))
     m = float(round(s * nu))
-    style = draw(st.sampled_from(["plain", "plain", "float", "tight"]))
+    style = draw(st.sampled_from(["plain", "plain", "float", "tight", "dotexp", "dotExp", "Eupper", "expsigned"]))
     if fam == "gauss":
         return Dist(fam, (m, float(draw(st.sampled_from([0, 1, 5, max(1, round(m / 8))])))), style)
     if fam == "uniform":
@@ -768,5 +768,5 @@ def systems(draw, avoid=frozenset(), chem="any", max_mols=3, **kw):
         kinds[draw(st.integers(0, n - 1))] = "abs"
     for m, k, p in zip(mols, kinds, pct):
         m.mix = (k, round(p, 6)) if k == "pct" else ("abs", round(p / 100.0 * S, 6))
-        m.mix_style = draw(st.sampled_from(["plain", "float", "nolead"]))
+        m.mix_style = draw(st.sampled_from(["plain", "float", "nolead", "dotexp", "dotExp", "Eupper", "expsigned"]))
     return Sys(mols)
